@@ -172,6 +172,11 @@ class Gen:
             generics.append(self.pick(["const N: usize", "const N: usize = 3"]))
         if self.maybe(0.05):
             where.append("'a: 'static")
+        if self.maybe(0.06):
+            # bounded types the where-clause walk treats specially: qualified-self and leading-colon paths,
+            # multi-segment paths, and (when the dependency is `D`) the dependency's own projections
+            where.append(self.pick(["<D as A>::Out: Clone", "::core::primitive::u8: Copy", "D::Out: B", "a::b::C: A",
+                                    "<u8 as ::core::ops::Add>::Output: Copy", "[D; 2]: Clone", "&'static D: A"]))
         r.shuffle(generics)
         gens = lifetimes + generics
         gtxt = ""
@@ -372,7 +377,8 @@ class Gen:
             else:
                 entries.append(self.pick(["type Out = u8;", "const K: u8 = 1;", "fn decl(d: &impl A);", "mm!();",
                                           "const C2: u8 = { 1 };"]))
-        attr = self.pick(["", "", "", "ref", "dyn", "ref dyn", "debug = false", "ref debug = false"])
+        attr = self.pick(["", "", "", "ref", "dyn", "ref dyn", "debug = false", "ref debug = false", "debug = false, debug",
+                          "ref debug, debug = false", "dyn debug = false"])
         if allow_invalid and self.maybe(0.3):
             attr = self.pick(["no_deps", "Foo", "ref,", "unimock", "dyn ref", "?Send", "ref, debug = false", "bogus"])
         item = f"{attrs}{pre}impl {path} for {ty} {{ {' '.join(entries)} }}"
